@@ -1,5 +1,6 @@
 import Driver.Proto
 import Relsad.Model.Interp
+import Relsad.Model.Increments
 
 namespace Driver
 open Relsad.Interp
@@ -17,6 +18,11 @@ def opsProf (args : List String) : Option String :=
   | ["interp", arr, m] => do
       let arr ← parseList? parseRat? arr; let m ← parseNat? m
       if arr.isEmpty then some "err empty" else some (showList showRat (interp arr m))
+  | "prepare" :: period :: step :: unitStep :: arrs => do
+      -- prepare_system: `<number of increments> <profile 1 resampled> <profile 2 resampled> ...`
+      let ps ← arrs.mapM (parseList? parseRat?)
+      let (axis, res) := Relsad.prepareSystem (← parseRat? period) (← parseRat? step) (← parseRat? unitStep) ps
+      some (String.intercalate " " (toString axis.length :: res.map (showList showRat)))
   | "load" :: n :: i :: cats => do
       let cs ← parseCats? cats
       let (p, q, c) := setLoadAndCost cs (← parseRat? n) (← parseNat? i)
